@@ -185,8 +185,8 @@ def scenario(ctx, n_ens, workers, chain, seed, with_model, outs):
         judge(ctx, rec, f"{label} life={life}", workers, steps)
         if with_model and rec["error"] is None:
             outs.append((rec["sim"], f"{label} life={life}"))
-        if rec["error"] is not None or rec["image"] is None:
-            if rec["image"] is None and life + 1 < len(chain) and rec["error"] is None and rec["treated"] == 0:
+        if rec["error"] is not None or rec.get("image") is None:
+            if rec.get("image") is None and life + 1 < len(chain) and rec["error"] is None and rec["treated"] == 0:
                 continue
             break
         image, weights = rec["image"], rec["weights"]
